@@ -116,8 +116,9 @@ def fo(pid, what, labels, seq=None, extra_expl="", level="model_checking", quick
       quick=dict(harnesses=seq or [], l2=quick_l2, l2_labels=labels, l2_timeout=120, l2_jobs=2, l2_par=16),
       thorough=dict(harnesses=seq or [], l2=thorough_l2, l2_labels=labels, l2_timeout=600, l2_jobs=2, l2_par=16))
 
-fo("C01","Ghost counters updated atomically at builder entry/exit assert that no schedule puts two builder invocations for the same key in flight at once.",
-   "at most one build per key in flight")
+fo("C01","Ghost counters updated atomically at builder entry/exit assert that no schedule puts two builder invocations for the same key in flight at once. Mutual exclusion rests on the integrity of the key-lock table (a lock is removed only by the Get that owns it, under the key it was taken for): the *_1_env compositions, in which the caller rewrites its key buffer right after Get returned, assert that no key lock remains at quiescence and that the built value went to the key Get was called with.",
+   "at most one build per key in flight|no key lock remains|stored under the key its Get",
+   quick_l2=FOQ+["verifL_Failover_1_env:l2","verifL_FailoverOf_1_env:l2"], thorough_l2=FOT+["verifL_Failover_1_env:l2","verifL_FailoverOf_1_env:l2","verifL_Failover_2_env:l2","verifL_FailoverOf_2_env:l2"])
 fo("C02","When a Get returns, a provenance oracle (evaluated atomically with ghost state recording which builder invocations finished with which outcome) asserts: a nil-error value is the key's initially stored value or the token of a finished successful build for that key; an error is a finished failing build's error for that key (or an injected backend fault). The sequential harness additionally injects backend read/write faults at every call position of a lone Get on both APIs.",
    "a value returned with nil error|an error returned was produced|get returned", seq=["verifH_C02_SeqFaults","verifH_C02_SeqFaultsOf"],
    quick_l2=FOQ+["verifL_Failover_2_faults:l2","verifL_FailoverOf_2_faults:l2"],
@@ -135,28 +136,28 @@ fo("C05","With SyncRead enabled (and no injected faults) no builder invocation f
 P["C16"]=dict(level="model_checking",
  explanation="Data races are decided on the unfused automata: every access to shared state is its own event (no reduction), two threads perform one public operation each on a shared ShardedMap, SyncMap or ShardedMapOf[int] holding one entry (Read, Write, Write of another key, Delete, ExpireAll, DeleteAll, Len, Walk with a callback reading Key/Value/ExpireAt, a cleanup cycle); each pair is its own composition. Race predicate (DRF-SC): some schedule makes two conflicting accesses of different threads (same location, at least one write, not both sync/atomic or sync.Map operations; a Go map is one location) adjacent in the global order, i.e. unordered by any synchronisation - decided by the solver over the clock/read-from encoding. Also: no unlock of an unlocked mutex, no deadlock. Findings are named by the functions containing the two accesses; each is confirmed natively with go test -race on the two-operation program.",
  bounds="pairs of operations (quick: {Read,Write,Delete,Walk} x {ExpireAll,DeleteAll,Write other,cleanup,Len} = 20 pairs per backend; thorough: all 81 ordered pairs per backend); one stored entry; EvictMostExpired",
- outside="programs of more than two operations; LRU/LFU counter updates (field C) against Dump; InvalidationIndex / Invalidator / Failover under the race predicate (their event exploration with unfused blocks exceeded the path bound: InvalidationIndex 200000 paths); Dump/Restore (gob stub)",
+ outside="programs of more than two operations; LRU/LFU counter updates (field C) against Dump; InvalidationIndex / Failover under the race predicate (Invalidator: two concurrent Invalidate calls are covered by verifL_Race_Invalidator, SkipInterval zero or set) (their event exploration with unfused blocks exceeded the path bound: InvalidationIndex 200000 paths); Dump/Restore (gob stub)",
  assumptions=["sync.Map and sync/atomic operations are atomic and never racy","sequential consistency for race-free executions (Go memory model DRF-SC)"],
  technique="event automata from go/ssa without fusion + SMT race predicate over a symbolic schedule (clock/read-from encoding); native go test -race replay of each finding",
- quick=dict(harnesses=[], l2=["verifL_Race_ShardedMap:l2","verifL_Race_SyncMap:l2","verifL_Race_ShardedMapOf:l2"], l2_jobs=3, l2_par=16, l2_timeout=120),
- thorough=dict(harnesses=[], l2=["verifL_Race_ShardedMap_all:l2","verifL_Race_SyncMap_all:l2","verifL_Race_ShardedMapOf_all:l2"], l2_jobs=3, l2_par=16, l2_timeout=300))
+ quick=dict(harnesses=[], l2=["verifL_Race_ShardedMap:l2","verifL_Race_SyncMap:l2","verifL_Race_ShardedMapOf:l2","verifL_Race_Invalidator:l2"], l2_jobs=3, l2_par=16, l2_timeout=120),
+ thorough=dict(harnesses=[], l2=["verifL_Race_ShardedMap_all:l2","verifL_Race_SyncMap_all:l2","verifL_Race_ShardedMapOf_all:l2","verifL_Race_Invalidator:l2"], l2_jobs=3, l2_par=16, l2_timeout=300))
 
 P["C08"]=dict(level="model_checking",
  explanation="Linearizability is decided per configuration by the solver over all schedules: two threads run real backend operations (Read, Write, Delete, ExpireAll, DeleteAll; thorough: thread A runs two of Read/Write/Delete in program order against one operation of thread B) on one key of a shared ShardedMap, SyncMap or ShardedMapOf[int]; each thread is explored in event mode from the go/ssa of the real methods (shard RWMutex Lock/RLock regions, Go map and sync.Map accesses, entry fields are events), the automata are composed with a symbolic scheduler, and at quiescence the oracle asserts that the tuple (result of every operation, final presence, final value, final dated/undated expiry) equals that of SOME sequential order of the operations on a 3-field reference register that respects program order. Because both operations overlap in every explored schedule, real-time precedence only constrains program order inside a thread, which the oracle respects. The Walk harness runs Walk against Read/Write/Delete of another key in the same or another shard: the untouched entry is visited exactly once, the other key at most once and only with a value that was stored, the returned count equals the number of callbacks.",
- bounds="2 threads; 2 operations (quick) or 2+1 operations (thorough) on one key; pre-stored entry absent / never expiring / already expired (the *_stale compositions, with and without LFU usage counters; a Read then reports the stale value and its expiry through ErrWithExpiredItem, read from the error after Read returned, as Failover does); Walk harness: 2 keys (same shard / different shards), one concurrent point operation; clock frozen; one pre-stored entry or none; UnlimitedTTL config, no jitter",
- outside="more than 2 goroutines or 3 operations; an entry whose expiry equals the frozen clock reading may be reported as a hit or as expired (both accepted); LRU counters; eviction/cleanup cycles as concurrent batch operations (cleanup is raced in C16 only); hash-colliding keys (same 64-bit hash); Walk against ExpireAll/DeleteAll",
+ bounds="2 threads; 2 operations (quick) or 2+1 operations (thorough) on one key; pre-stored entry absent / never expiring / already expired (the *_stale compositions, with and without LFU usage counters, operations there include one janitor cleanup cycle with DeleteExpiredAfter=5ns; a Read then reports the stale value and its expiry through ErrWithExpiredItem, read from the error after Read returned, as Failover does); Walk harness: 2 keys (same shard / different shards), one concurrent point operation; clock frozen; one pre-stored entry or none; UnlimitedTTL config, no jitter",
+ outside="more than 2 goroutines or 3 operations; an entry whose expiry equals the frozen clock reading may be reported as a hit or as expired (both accepted); LRU counters; eviction as a concurrent batch operation (cleanup is raced in C16 only); hash-colliding keys (same 64-bit hash); Walk against ExpireAll/DeleteAll",
  assumptions=["sync.Map operations (Load, Store, LoadAndDelete, LoadOrStore, Delete, Range step) are atomic per call; Range visits the keys present when each step executes","blocks are formed by Lipton reduction over the lockset facts recomputed on every run","sequential consistency (race freedom of these accesses is the subject of C16)"],
  technique="event automata from go/ssa + bounded model checking of the composition with a symbolic scheduler (partial-order SMT encoding); linearizability oracle = disjunction over sequential orders of a reference register evaluated by the solver",
  quick=dict(harnesses=[], l2=["verifL_Lin2_ShardedMap:l2","verifL_Lin2_SyncMap:l2","verifL_Lin2_ShardedMapOf:l2","verifL_Lin2_ShardedMap_stale:l2","verifL_Lin2_SyncMap_stale:l2","verifL_Lin2_ShardedMapOf_stale:l2","verifL_LinWalk_ShardedMap:l2","verifL_LinWalk_SyncMap:l2","verifL_LinWalk_ShardedMapOf:l2"], l2_jobs=3, l2_par=16, l2_timeout=120),
  thorough=dict(harnesses=[], l2=["verifL_Lin2_ShardedMap:l2","verifL_Lin2_SyncMap:l2","verifL_Lin2_ShardedMapOf:l2","verifL_Lin2_ShardedMap_stale:l2","verifL_Lin2_SyncMap_stale:l2","verifL_Lin2_ShardedMapOf_stale:l2","verifL_LinWalk_ShardedMap:l2","verifL_LinWalk_SyncMap:l2","verifL_LinWalk_ShardedMapOf:l2","verifL_Lin3_ShardedMap:l2","verifL_Lin3_SyncMap:l2","verifL_Lin3_ShardedMapOf:l2"], l2_jobs=3, l2_par=16, l2_timeout=300))
 
 P["C14"]=dict(level="other",
- explanation="The transfer half of the property is decided on the real HTTPTransfer.Export handler, HTTPTransfer.Import and importCache, together with the real Dump/Restore of ShardedMap and SyncMap: an exporter and an importer HTTPTransfer each register an arbitrary subset of three cache names; every exporter cache holds an arbitrary subset of two keys with symbolic non-zero values and symbolic expiry; the importer's Transport is a harness RoundTripper that runs the exporter's real handler in process (with the exporter's own types hash installed while it runs) and hands its status and body back as the response. Importer and exporter types hashes are arbitrary 64-bit values (equal, or assumed different). For every path the solver decides: Import returns nil; a cache whose name the exporter knows and whose hash matches ends up with exactly the exporter's entries of that name (keys, values, expiry, count); with a different hash or an unknown name the importer's cache stays empty; the exporter's caches are unchanged. The *_Faults harnesses let RoundTrip fail, or the body break, for one cache name: that cache then holds only exporter entries (possibly none) and the others are imported as usual.",
+ explanation="The transfer half of the property is decided on the real HTTPTransfer.Export handler, HTTPTransfer.Import and importCache, together with the real Dump/Restore of ShardedMap and SyncMap: an exporter and an importer HTTPTransfer each register an arbitrary subset of three cache names; every exporter cache holds an arbitrary subset of two keys with symbolic non-zero values and symbolic expiry; the importer's Transport is a harness RoundTripper that runs the exporter's real handler in process (with the exporter's own types hash installed while it runs) and hands its status and body back as the response. Importer and exporter types hashes are arbitrary 64-bit values (equal, or assumed different). For every path the solver decides: Import returns nil; a cache whose name the exporter knows and whose hash matches ends up with exactly the exporter's entries of that name (keys, values, expiry, count); with a different hash or an unknown name the importer's cache stays empty; the exporter's caches are unchanged. verifH_C14_TwoRounds runs two transfers on the same pair of HTTPTransfer instances with both sides' types hashes re-chosen in between (a type was registered): each transfer must follow the hashes current at that time. The *_Faults harnesses let RoundTrip fail, or the body break, for one cache name: that cache then holds only exporter entries (possibly none) and the others are imported as usual.",
  bounds="<=3 cache names per side, <=2 entries per cache (third cache <=1), ShardedMap/SyncMap on either side, one fault per Import (RoundTrip error or body that breaks before its first byte)",
  outside="the types-hash half of the property (GobRegister/recursiveTypeHash: determinism across processes, independence of registration order and multiplicity, sensitivity to an added type) - reflect type descriptors cannot be encoded by the executor, see DESIGN.md section 7; the gob wire format and mid-record truncation (record-stream stub); real network transports, URL syntax (export URL assumed valid, without query); ShardedMapOf (HTTPTransfer takes WalkDumpRestorer of interface{} values); ExportJSONL",
  assumptions=["net/url and net/http plumbing is modelled at the level of the data it carries (stubs_used lists each: url.Parse, URL.Query/Values.Encode as inverse pair over an opaque string, URL.String/http.NewRequest likewise, http.Error = WriteHeader+Write, headers not modelled, io.ReadAll/io.Copy as Read loops)","strconv.FormatUint is injective (decimal rendering for constants, an injective atom for symbolic values)","encoding/gob modelled as a record stream (as in C13)","no Logger configured (the logging branches are not taken)"],
- quick=dict(harnesses=["verifH_C14_Sharded_Sharded","verifH_C14_Faults"], jobs=2, workers=8),
- thorough=dict(harnesses=["verifH_C14_Sharded_Sharded","verifH_C14_Sharded_Sync","verifH_C14_Sync_Sharded","verifH_C14_Sync_Sync","verifH_C14_Faults","verifH_C14_Faults3"], jobs=3, workers=5))
+ quick=dict(harnesses=["verifH_C14_Sharded_Sharded","verifH_C14_Faults","verifH_C14_TwoRounds"], jobs=3, workers=5),
+ thorough=dict(harnesses=["verifH_C14_Sharded_Sharded","verifH_C14_Sharded_Sync","verifH_C14_Sync_Sharded","verifH_C14_Sync_Sync","verifH_C14_Faults","verifH_C14_Faults3","verifH_C14_TwoRounds"], jobs=3, workers=5))
 
 json.dump({"common_assumptions":common,"properties":P},open('/verif/checks.json','w'),indent=1)
 print("checks.json:",sorted(P))
